@@ -109,12 +109,12 @@ class SSCChart(BaseChart):
 
     def serialize(self, file):
         file.write(f"{MSDParameter(('NOTEDATA', ''))}\n")
-        notes_key = "NOTES"
+        # Same choice of key as the `notes` property (NOTES2 is an alias)
+        notes_key = "NOTES2" if "NOTES" not in self and "NOTES2" in self else "NOTES"
 
         for (key, value) in self.items():
             # Either NOTES or NOTES2 must be the last chart property
-            if value is self.notes:
-                notes_key = key
+            if key == notes_key:
                 continue
             if value is None:
                 param = MSDParameter((key,))
@@ -124,7 +124,11 @@ class SSCChart(BaseChart):
                 param = MSDParameter((key, value))
             file.write(f"{param}\n")
 
-        notes_param = MSDParameter((notes_key, self[notes_key]))
+        notes = self[notes_key]
+        if notes is None:
+            notes_param = MSDParameter((notes_key,))
+        else:
+            notes_param = MSDParameter((notes_key, notes))
         file.write(f"{notes_param}\n\n")
 
 
